@@ -60,6 +60,24 @@ def is_sql(v):
     return isinstance(v, SV) and isinstance(v.td, TSqlT)
 
 
+def _den(st, v, kind):
+    """Denotation of a SQL term as an expression in rho: the expression recorded when this function built the term (so that
+    composite terms are obtained by *substitution*, not through chains of equations), else the uninterpreted sqx / sqb."""
+    rec = st.ghost.get("sqlden", {}).get((v.z.get_id(), kind))
+    if rec is not None:
+        return rec
+    return (lambda rho, z=v.z: sqx(z, rho)) if kind == "x" else (lambda rho, z=v.z: sqb(z, rho))
+
+
+def _record(st, t, kind, fn):
+    d = dict(st.ghost.get("sqlden", {}))
+    d[(t.z.get_id(), kind)] = fn
+    st.ghost["sqlden"] = d
+    rho = z3.Const("rho", Row)
+    f = sqx if kind == "x" else sqb
+    st.assume(z3.ForAll([rho], f(t.z, rho) == fn(rho), patterns=[f(t.z, rho)]))
+
+
 def colmap_ok(m):
     t = z3.Const("t", smt.Tag)
     rho = z3.Const("rho", Row)
@@ -88,11 +106,11 @@ def _foreign_call(ex, callee, args, kwargs, st, node):
         v = args[0]
         t = term(st, "lit")
         if isinstance(v, SV) and v.td == TInt:
-            st.assume(z3.ForAll([rho], sqx(t.z, rho) == v.z, patterns=[sqx(t.z, rho)]))
+            _record(st, t, "x", lambda r, z=v.z: z)
         elif isinstance(v, SV) and v.td == TBool:
-            st.assume(z3.ForAll([rho], sqb(t.z, rho) == v.z, patterns=[sqb(t.z, rho)]))
+            _record(st, t, "b", lambda r, z=v.z: z)
         elif isinstance(v, SV) and v.z.sort() == smt.Ref:
-            st.assume(z3.ForAll([rho], sqx(t.z, rho) == V.lit_int(v.z), patterns=[sqx(t.z, rho)]))
+            _record(st, t, "x", lambda r, z=v.z: V.lit_int(z))
         return ex.ok(t, st)
     if fn in ("and_", "or_"):
         t = term(st, fn)
@@ -109,18 +127,21 @@ def _foreign_call(ex, callee, args, kwargs, st, node):
                 return None
             items.append(a)
         if all(is_sql(a) for a in items):
-            zs = [sqb(a.z, rho) for a in items]
-            body = (z3.And(*zs) if zs else z3.BoolVal(True)) if fn == "and_" else (z3.Or(*zs) if zs else z3.BoolVal(False))
-            st.assume(z3.ForAll([rho], sqb(t.z, rho) == body, patterns=[sqb(t.z, rho)]))
+            ds = [_den(st, a, "b") for a in items]
+            if fn == "and_":
+                _record(st, t, "b", lambda r, ds=ds: z3.And(*[d(r) for d in ds]) if ds else z3.BoolVal(True))
+            else:
+                _record(st, t, "b", lambda r, ds=ds: z3.Or(*[d(r) for d in ds]) if ds else z3.BoolVal(False))
             return ex.ok(t, st)
     if fn == "not_" and len(args) == 1 and is_sql(args[0]):
         t = term(st, "not")
-        st.assume(z3.ForAll([rho], sqb(t.z, rho) == z3.Not(sqb(args[0].z, rho)), patterns=[sqb(t.z, rho)]))
+        d0 = _den(st, args[0], "b")
+        _record(st, t, "b", lambda r, d0=d0: z3.Not(d0(r)))
         return ex.ok(t, st)
     if fn == "between" and len(args) == 3 and all(is_sql(a) for a in args):
         t = term(st, "between")
-        x, lo, hi = [sqx(a.z, rho) for a in args]
-        st.assume(z3.ForAll([rho], sqb(t.z, rho) == z3.And(lo <= x, x <= hi), patterns=[sqb(t.z, rho)]))
+        dx_, dlo, dhi = [_den(st, a, "x") for a in args]
+        _record(st, t, "b", lambda r: z3.And(dlo(r) <= dx_(r), dx_(r) <= dhi(r)))
         return ex.ok(t, st)
     return None
 
@@ -139,21 +160,20 @@ def _index(ex, v, i, st, node):
 
 def _binop(ex, op, a, b, st, node):
     if is_sql(a) and is_sql(b):
-        rho = z3.Const("rho", Row)
-        x, y = sqx(a.z, rho), sqx(b.z, rho)
-        val = {ast.Mod: lambda: tmod(x, y), ast.Sub: lambda: x - y, ast.Add: lambda: x + y, ast.Mult: lambda: x * y}.get(type(op))
+        da, db = _den(st, a, "x"), _den(st, b, "x")
+        val = {ast.Mod: lambda r: tmod(da(r), db(r)), ast.Sub: lambda r: da(r) - db(r), ast.Add: lambda r: da(r) + db(r), ast.Mult: lambda r: da(r) * db(r)}.get(type(op))
         if val is None:
             return None
         t = term(st, type(op).__name__.lower())
-        st.assume(z3.ForAll([rho], sqx(t.z, rho) == val(), patterns=[sqx(t.z, rho)]))
+        _record(st, t, "x", val)
         return ex.ok(t, st)
     return None
 
 
 def _compare_term(ex, a, b, st, f):
-    rho = z3.Const("rho", Row)
     t = term(st, "cmp")
-    st.assume(z3.ForAll([rho], sqb(t.z, rho) == f(sqx(a.z, rho), sqx(b.z, rho)), patterns=[sqb(t.z, rho)]))
+    da, db = _den(st, a, "x"), _den(st, b, "x")
+    _record(st, t, "b", lambda r: f(da(r), db(r)))
     return t
 
 
@@ -312,9 +332,29 @@ def register(reg):
         s2, d = -s, a - b - 1
         q = d / s2
         smallest = a + q * s
-        return [B(instance("mod-congruence", x, a, s)), B(instance("floor-division", d, s2)), B(instance("mod-congruence", x, smallest, s2)),
-                B(instance("mod-congruence", a, x, s2)), B(instance("mod-congruence", a, smallest, s2)), B(instance("emod-small-negative", x - smallest, s2)),
-                B(instance("mod-congruence", x, a, s2))]
+        # ascending ranges: congruence modulo the step; descending ranges: the Lean-proved rewriting lemma desc-range plus congruence
+        # modulo -step at the smallest element.  (Earlier versions instantiated floor-division / emod-small-negative instead of
+        # desc-range; their extra nonlinear products kept z3 from closing the descending cell.)
+        return [B(instance("mod-congruence", x, a, s)), B(instance("mod-congruence", x, smallest, s2)), B(instance("desc-range", a, b, s, x))]
+
+    def range_hints(c):
+        """Descending range with |step| > 1: first (own obligation) 'the SQL term denotes membership in the ascending range from the
+        smallest element', an evaluation of the builder calls plus congruence; the Lean-proved lemma desc-range then relates that to
+        the specification's descending range.  (Vacuous in every other cell.)"""
+        from spec.laws import instance
+
+        p = c.predicate.z
+        rho = c.forall([(TRow, "rho")], lambda rho: rho).z
+        cont = A(c, "ColumnInContainer", "container")(p)
+        x = V.evx(A(c, "ColumnInContainer", "item")(p), rho)
+        rng = A(c, "ColumnRangeLiteral", "value")(cont)
+        a, b, s = smt.Range.r_start(rng), smt.Range.r_stop(rng), smt.Range.r_step(rng)
+        kk = -s
+        m = a + ((a - b - 1) / kk) * s
+        cell = z3.And(smt.typ(p) == cid(c, "ColumnInContainer"), smt.typ(cont) == cid(c, "ColumnRangeLiteral"), s < -1, b < a)
+        asc_form = z3.And(m <= x, x <= a, (x - m) % kk == 0)
+        return [B(z3.Implies(cell, sqb(c.result.z, rho) == asc_form)),
+                B(z3.Implies(cell, V.ev(p, rho) == z3.And(b < x, x <= a, (a - x) % kk == 0)))]
 
     k.ens("denotes-the-predicates-value", lambda c: c.forall([(TRow, "rho")], lambda rho: B(sqb(c.result.z, rho.z) == V.ev(c.predicate.z, rho.z)),
-                                                               patterns=lambda rho: [sqb(c.result.z, rho.z)]), lemmas=range_lemmas)
+                                                               patterns=lambda rho: [sqb(c.result.z, rho.z)]), lemmas=range_lemmas, hints=range_hints)
